@@ -44,7 +44,7 @@ def main():
         assert rc == 0, out
         # demonstration on the pristine tree
         cfg = os.path.join(VERIF, '_work', 'cfg', 'include')
-        tsan = 'thread' in open(os.path.join(d, 'demo.cpp')).read()[:4000] and pid == 'C20'
+        tsan = 'thread' in open(os.path.join(d, 'demo.cpp')).read()[:600] or pid == 'C20' and 'thread' in open(os.path.join(d, 'demo.cpp')).read()[:4000]
         san = '-fsanitize=thread' if tsan else '-fsanitize=address,undefined -fno-sanitize-recover=all'
         comp = 'g++ -std=c++20 -O1 -g %s -I%s/include -I%s %s/demo.cpp -o %s/demo_bin -lpthread' % (san, wt, cfg, d, wt)
         rc, out = sh(comp)
